@@ -394,11 +394,10 @@ func (c *MJWrapperComponent) renderFullWidthToWriter(w io.StringWriter) error {
 
 	useOuterOnlyMSO := c.shouldUseOuterOnlyMSOWrapper()
 	hasRenderableChildren := c.hasRenderableChildren()
-	msoWrapperOpened := false
+	msoDepth := html.MSOWrapperNone // how much of the Outlook table structure is open (see html.MSOWrapper*)
 	delegatedWrapperBackground := false
 	wrapperWidth := c.GetEffectiveWidth()
 	forceWrapperTableSections := delegatedWrapperBackground && wrapperBgColor != ""
-	forceWrapperTableRaw := forceWrapperTableSections || !delegatedWrapperBackground
 
 	if !hasRenderableChildren {
 		if continueMSOComment {
@@ -422,7 +421,7 @@ func (c *MJWrapperComponent) renderFullWidthToWriter(w io.StringWriter) error {
 				return err
 			}
 		}
-		msoWrapperOpened = true
+		msoDepth = html.MSOWrapperCell
 	} else if splitMSOWrapper && msoBgColor != "" {
 		if continueMSOComment {
 			if err := html.RenderMSOWrapperOuterOpenContinuation(w, wrapperWidth, firstAlign, ""); err != nil {
@@ -434,7 +433,7 @@ func (c *MJWrapperComponent) renderFullWidthToWriter(w io.StringWriter) error {
 				return err
 			}
 		}
-		msoWrapperOpened = true
+		msoDepth = html.MSOWrapperCell
 		delegatedWrapperBackground = true
 	} else {
 		if continueMSOComment {
@@ -447,17 +446,16 @@ func (c *MJWrapperComponent) renderFullWidthToWriter(w io.StringWriter) error {
 				return err
 			}
 		}
-		msoWrapperOpened = true
+		msoDepth = html.MSOWrapperSection
 	}
 
 	// Render children with standard body width
 	// Add MSO section transitions between section children (like MRML does)
-	wrapperMSOClosedByChild := false
 
 	for i, child := range c.Children {
 		if child.IsRawElement() {
 			// Inject raw content inside the MSO transition block so Outlook maintains table structure
-			if err := html.RenderMSOSectionTransitionWithContent(w, c.GetEffectiveWidth(), effectiveWidth, "", "", false, forceWrapperTableRaw, func(sw io.StringWriter) error {
+			if err := html.RenderMSOSectionTransitionWithContent(w, c.GetEffectiveWidth(), effectiveWidth, "", "", msoDepth, msoDepth == html.MSOWrapperSection, func(sw io.StringWriter) error {
 				return child.Render(sw)
 			}); err != nil {
 				return err
@@ -482,8 +480,13 @@ func (c *MJWrapperComponent) renderFullWidthToWriter(w io.StringWriter) error {
 					closeWrapper = false
 				}
 			}
-			if err := html.RenderMSOSectionTransition(w, c.GetEffectiveWidth(), effectiveWidth, getChildAlign(child), nextBgColor, closeWrapper, forceWrapperTableSections); err != nil {
+			toSection := closeWrapper || forceWrapperTableSections
+			if err := html.RenderMSOSectionTransition(w, c.GetEffectiveWidth(), effectiveWidth, getChildAlign(child), nextBgColor, msoDepth, toSection); err != nil {
 				return err
+			}
+			msoDepth = html.MSOWrapperCell
+			if toSection {
+				msoDepth = html.MSOWrapperSection
 			}
 		}
 
@@ -507,25 +510,11 @@ func (c *MJWrapperComponent) renderFullWidthToWriter(w io.StringWriter) error {
 		if err := child.Render(w); err != nil {
 			return err
 		}
-		if consumer, ok := child.(interface{ ConsumedWrapperMSOTable() bool }); ok && consumer.ConsumedWrapperMSOTable() {
-			wrapperMSOClosedByChild = true
-		}
 	}
 
-	if wrapperMSOClosedByChild {
-		if err := html.RenderMSOConditional(w, "</td></tr></table>"); err != nil {
-			return err
-		}
-	} else if msoWrapperOpened {
-		if useOuterOnlyMSO {
-			if err := html.RenderMSOConditional(w, "</td></tr></table>"); err != nil {
-				return err
-			}
-		} else {
-			if err := html.RenderMSOWrapperTableClose(w); err != nil {
-				return err
-			}
-		}
+	// Close exactly what is open at this point
+	if err := html.RenderMSOWrapperClose(w, msoDepth); err != nil {
+		return err
 	}
 
 	if err := innerTd.RenderClose(w); err != nil {
@@ -743,7 +732,7 @@ func (c *MJWrapperComponent) renderSimpleToWriter(w io.StringWriter) error {
 	outerWidth := c.GetEffectiveWidth()
 	useOuterOnlyMSO := c.shouldUseOuterOnlyMSOWrapper()
 	hasRenderableChildren := c.hasRenderableChildren()
-	msoWrapperOpened := false
+	msoDepth := html.MSOWrapperNone // how much of the Outlook table structure is open (see html.MSOWrapper*)
 	delegatedWrapperBackground := false
 	if !hasRenderableChildren {
 		if continueMSOComment {
@@ -767,7 +756,7 @@ func (c *MJWrapperComponent) renderSimpleToWriter(w io.StringWriter) error {
 				return err
 			}
 		}
-		msoWrapperOpened = true
+		msoDepth = html.MSOWrapperCell
 	} else if splitMSOWrapper && msoBgColor != "" {
 		if continueMSOComment {
 			if err := html.RenderMSOWrapperOuterOpenContinuation(w, outerWidth, firstAlign, ""); err != nil {
@@ -779,7 +768,7 @@ func (c *MJWrapperComponent) renderSimpleToWriter(w io.StringWriter) error {
 				return err
 			}
 		}
-		msoWrapperOpened = true
+		msoDepth = html.MSOWrapperCell
 		delegatedWrapperBackground = true
 	} else {
 		if continueMSOComment {
@@ -792,20 +781,17 @@ func (c *MJWrapperComponent) renderSimpleToWriter(w io.StringWriter) error {
 				return err
 			}
 		}
-		msoWrapperOpened = true
+		msoDepth = html.MSOWrapperSection
 	}
 
 	// Render children - pass the effective width (600px - border width)
 	// Add MSO section transitions between section children (like MJML does)
 
 	forceWrapperTableSections := delegatedWrapperBackground && wrapperBgColor != ""
-	forceWrapperTableRaw := forceWrapperTableSections || !delegatedWrapperBackground
-
-	wrapperMSOClosedByChild := false
 
 	for i, child := range c.Children {
 		if child.IsRawElement() {
-			if err := html.RenderMSOSectionTransitionWithContent(w, outerWidth, effectiveWidth, "", "", false, forceWrapperTableRaw, func(sw io.StringWriter) error {
+			if err := html.RenderMSOSectionTransitionWithContent(w, outerWidth, effectiveWidth, "", "", msoDepth, msoDepth == html.MSOWrapperSection, func(sw io.StringWriter) error {
 				return child.Render(sw)
 			}); err != nil {
 				return err
@@ -830,8 +816,13 @@ func (c *MJWrapperComponent) renderSimpleToWriter(w io.StringWriter) error {
 					closeWrapper = false
 				}
 			}
-			if err := html.RenderMSOSectionTransition(w, outerWidth, effectiveWidth, getChildAlign(child), nextBgColor, closeWrapper, forceWrapperTableSections); err != nil {
+			toSection := closeWrapper || forceWrapperTableSections
+			if err := html.RenderMSOSectionTransition(w, outerWidth, effectiveWidth, getChildAlign(child), nextBgColor, msoDepth, toSection); err != nil {
 				return err
+			}
+			msoDepth = html.MSOWrapperCell
+			if toSection {
+				msoDepth = html.MSOWrapperSection
 			}
 		}
 
@@ -855,25 +846,11 @@ func (c *MJWrapperComponent) renderSimpleToWriter(w io.StringWriter) error {
 		if err := child.Render(w); err != nil {
 			return err
 		}
-		if consumer, ok := child.(interface{ ConsumedWrapperMSOTable() bool }); ok && consumer.ConsumedWrapperMSOTable() {
-			wrapperMSOClosedByChild = true
-		}
 	}
 
-	if wrapperMSOClosedByChild {
-		if err := html.RenderMSOConditional(w, "</td></tr></table>"); err != nil {
-			return err
-		}
-	} else if msoWrapperOpened {
-		if useOuterOnlyMSO {
-			if err := html.RenderMSOConditional(w, "</td></tr></table>"); err != nil {
-				return err
-			}
-		} else {
-			if err := html.RenderMSOWrapperTableClose(w); err != nil {
-				return err
-			}
-		}
+	// Close exactly what is open at this point
+	if err := html.RenderMSOWrapperClose(w, msoDepth); err != nil {
+		return err
 	}
 
 	if err := mainTd.RenderClose(w); err != nil {
